@@ -581,6 +581,22 @@ def ident_info(tree, cls):
             elif isinstance(v, ast.Call) and isinstance(v.func, ast.Name) and v.func.id == "sorted" and len(v.args) == 1:
                 derived[attr] = ("sorted", ast.unparse(v.args[0]))
                 argmap.setdefault(ast.unparse(v.args[0]), attr)
+    # a bare constructor argument in the hash tuple stands for an attribute only if this __init__ assigns it unchanged
+    # (`self.x = arg`, or `self.x = sorted(arg)` for the starred one) - fail closed on a normalising assignment such as
+    # `self.scope_id = scope_id or None`, which would make __hash__ and _eq read different values under one field name
+    raw_names = {x.id for x in hval.args[0].elts if isinstance(x, ast.Name)} | \
+                {x.value.id for x in hval.args[0].elts if isinstance(x, ast.Starred) and isinstance(x.value, ast.Name)}
+    base_args = {"type_": "type"}
+    binit = find_def(tree, "DNSEntry.__init__")
+    for a, attr in base_args.items():
+        if ast.unparse(assign_value(binit, "self." + attr)) != a:
+            raise Fail("DNSEntry.__init__: self.%s is no longer assigned %s unchanged" % (attr, a), binit)
+    for nm in sorted(raw_names):
+        if nm in base_args:
+            continue
+        if nm not in argmap or derived.get(argmap[nm], (None,))[0] not in ("id", "sorted") or \
+                derived[argmap[nm]][1] != nm:
+            raise Fail("%s: hash tuple uses constructor argument %s which is not stored unchanged as an attribute" % (cls, nm), hval)
     hfields = [argmap.get(f, f) if not f.endswith("*") else argmap.get(f[:-1], f[:-1]) + "*" for f in hfields]
     # __hash__ returns self._hash
     hfn = find_def(tree, cls + ".__hash__")
@@ -821,12 +837,27 @@ def gen(repo, outdir, selftest_out=None):
     known = {"key", "type", "class_", "address", "scope_id", "cpu", "os", "alias_key", "text", "priority", "weight", "port",
              "server_key", "next_name", "rdtypes", "name", "ttl", "created", "unique", "alias", "server"}
     try:
+        # attributes each class has (the model's `Rec.field` answers `.none` for any other, which would compare equal)
+        base_f = {"key", "name", "type", "class_", "unique"}
+        rec_f = base_f | {"ttl", "created"}
+        allowed = {"DNSQuestion": base_f, "DNSAddress": rec_f | {"address", "scope_id"}, "DNSHinfo": rec_f | {"cpu", "os"},
+                   "DNSPointer": rec_f | {"alias", "alias_key"}, "DNSText": rec_f | {"text"},
+                   "DNSService": rec_f | {"priority", "weight", "port", "server", "server_key"},
+                   "DNSNsec": rec_f | {"next_name", "rdtypes"}}
         for cls in IDENT_CLASSES:
             info = ident_info(dns, cls)
             for lst in (info["hash"], info["eq"]):
                 for f in lst:
                     if f.rstrip("*") not in known:
                         raise Fail("%s: unknown identity field %s" % (cls, f))
+                    if cls in allowed and f.rstrip("*") not in allowed[cls]:
+                        raise Fail("%s: identity field %s is not an attribute of this class" % (cls, f))
+            # "records of different kinds are never equal" rests on the isinstance guard: no record class may derive
+            # from another record class
+            cdef = find_def(dns, cls)
+            bases = [ast.unparse(b) for b in cdef.bases]
+            if cls != "DNSQuestion" and bases != ["DNSRecord"]:
+                raise Fail("%s derives from %s, not directly from DNSRecord" % (cls, bases), cdef)
             lines.append("def %sHash : List Field := [%s]" % (cls[3:].lower(), ", ".join("." + f.rstrip("*") for f in info["hash"])))
             lines.append("def %sEq : List Field := [%s]" % (cls[3:].lower(), ", ".join("." + f for f in info["eq"])))
         # derivations: key = name.lower(), alias_key = alias.lower(), server_key = server.lower(), rdtypes = sorted(rdtypes)
